@@ -188,7 +188,7 @@ impl Check for AcoRunCheck {
         "C19/aco-run".into()
     }
     fn classes(&self) -> &'static [&'static str] {
-        &["update where >= 2 tours share an edge", ">= 50 iterations", "n >= 5", "max-min variant", "trails decayed below 1e-100", "very unequal distances"]
+        &["update where >= 2 tours share an edge", ">= 50 iterations", "n >= 5", "max-min variant", "trails decayed below 1e-100", "very unequal distances", "configuration used on a smaller instance before"]
     }
     fn oracle(&self, spec: &RunSpec) -> Outcome {
         let mut cl = 0;
@@ -221,6 +221,13 @@ fn run_oracle(spec: &RunSpec, cl: &mut u64) -> Result<(), Failure> {
         Ok(c) => c,
         Err(e) => return soft_fail(Failure::new("C19 ACO constructor rejects valid parameters", format!("{spec:?}: {e:#}"))),
     };
+    // one run in three: the configuration object was used on a smaller instance before (a configuration is a
+    // description; nothing of an earlier run may stay behind in it)
+    if spec.seed % 3 == 0 && n > 3 {
+        let small = crate::fixtures::problems::TspP::generated(3.max(n - 2), 0, spec.seed ^ 0xABCD);
+        let _ = crate::fixtures::run::run_plain(&cfg, &small, spec.seed, EvalKind::Sequential);
+        *cl |= 64;
+    }
     let audit = Arc::new(Mutex::new(A19 { n, ants, rho, decay, bounds, min_trail_seen: f64::INFINITY, ..Default::default() }));
     let res = run_observed_auto(&cfg, &problem, spec.seed, EvalKind::Sequential, audit.clone());
     let a = audit.lock().unwrap();
@@ -375,7 +382,7 @@ fn aco_spec_strategy(max_iters: u32) -> impl Strategy<Value = RunSpec> {
 }
 
 pub fn run_all(ctx: &mut Ctx, replay: Option<&Path>) {
-    ctx.rule("runs: ant_system and max_min_ant_system (through the hook constructors) over TSP n 3-8, five distance-matrix kinds incl. ratios of 1e9, one city 1e150 away (so (1/d)^beta underflows) and distances in a unit of 1e-18 (tour lengths far below f64::EPSILON), ants 1-8, alpha/beta in [0,5], default pheromone in {1e-6, 1, 1e3}, evaporation in {0, 0.01, 0.5, 0.99, 1}, decay / min-max bounds, 1-200 iterations (so trails reach the underflow region), seeds; audited at every generation (ants + 1 tours, unevaluated, permutations of all cities starting at 0, first tour greedy w.r.t. the matrix observed before) and every pheromone update (entry-wise equal within 4 ulp to evaporate-then-reinforce computed from the matrix snapshot and the rewarded tours in the same order, symmetric increments, finite and >= 0, max-min: all off-diagonal entries within [min, max]); non-trivial = a run with an update in which >= 2 rewarded tours share an edge. components: generation (+ one update) on prepared matrices for n 2-9 and occasionally 33-130 cities (all zero, constant, values from 1e-300 to 1e6, one dominant row, subnormal); distinct by case");
+    ctx.rule("runs: ant_system and max_min_ant_system (through the hook constructors) over TSP n 3-8, five distance-matrix kinds incl. ratios of 1e9, one city 1e150 away (so (1/d)^beta underflows) and distances in a unit of 1e-18 (tour lengths far below f64::EPSILON), ants 1-8, alpha/beta in [0,5], default pheromone in {1e-6, 1, 1e3}, evaporation in {0, 0.01, 0.5, 0.99, 1}, decay / min-max bounds, 1-200 iterations (so trails reach the underflow region), seeds; audited at every generation (ants + 1 tours, unevaluated, permutations of all cities starting at 0, first tour greedy w.r.t. the matrix observed before) and every pheromone update (entry-wise equal within 4 ulp to evaporate-then-reinforce computed from the matrix snapshot and the rewarded tours in the same order, symmetric increments, finite and >= 0, max-min: all off-diagonal entries within [min, max]); non-trivial = a run with an update in which >= 2 rewarded tours share an edge. components: generation (+ one update) on prepared matrices for n 2-9 and occasionally 33-130 and 520 cities (a pheromone matrix of more than 2^18 entries) (all zero, constant, values from 1e-300 to 1e6, one dominant row, subnormal); distinct by case");
     ctx.assume("tour length = the problem's objective value of the tour (the harness TSP objective is the closed tour length + 1, strictly positive)");
     let r = AcoRunCheck;
     let d = DirectCheck;
@@ -388,7 +395,7 @@ pub fn run_all(ctx: &mut Ctx, replay: Option<&Path>) {
     ctx.random(&r, aco_spec_strategy(ctx.tier.pick(80, 200)), ctx.tier.pick(8000, 40_000));
     ctx.random(
         &d,
-        (prop_oneof![12 => (2usize..10).boxed(), 1 => proptest::sample::select(vec![33usize, 63, 64, 65, 66, 100, 130]).boxed()], 1usize..9, prop_oneof![Just(0.0), Just(1.0), 0.0f64..3.0], prop_oneof![Just(0.0), Just(1.0), 0.0f64..3.0], 0u8..5, 0u8..5, any::<u64>(), 0u8..3, prop_oneof![Just(0.0), Just(0.5), Just(1.0), 0.0f64..=1.0]).prop_map(|(n, ants, alpha, beta, matrix, dist_kind, seed, update, rho)| DirectCase { n, ants, alpha, beta, matrix, dist_kind, seed, update, rho }),
+        (prop_oneof![12 => (2usize..10).boxed(), 1 => proptest::sample::select(vec![33usize, 63, 64, 65, 66, 100, 130, 520]).boxed()], 1usize..9, prop_oneof![Just(0.0), Just(1.0), 0.0f64..3.0], prop_oneof![Just(0.0), Just(1.0), 0.0f64..3.0], 0u8..5, 0u8..5, any::<u64>(), 0u8..3, prop_oneof![Just(0.0), Just(0.5), Just(1.0), 0.0f64..=1.0]).prop_map(|(n, ants, alpha, beta, matrix, dist_kind, seed, update, rho)| DirectCase { n, ants, alpha, beta, matrix, dist_kind, seed, update, rho }),
         ctx.tier.pick(12_000, 60_000),
     );
 }
